@@ -19,8 +19,8 @@ def _formats(fn, which):
     out = []
     for c in ast.walk(fn):
         if isinstance(c, ast.Call) and dotted(c.func) == f"struct.{which}" and c.args and isinstance(c.args[0], ast.Constant):
-            out.append(c.args[0].value)
-    return out
+            out.append((c.lineno, c.col_offset, c.args[0].value))
+    return [f for _, _, f in sorted(out)]  # in source order
 
 
 def _reads(fn):
@@ -77,20 +77,15 @@ def check_symmetry(ctx, R="C18.symmetry"):
         for c in ast.walk(dec):
             if isinstance(c, ast.Call) and dotted(c.func) == "int.from_bytes":
                 src = c.args[0]
-                size = None
-                for r in _reads(src):
-                    size = lib.const(r.args[0])
                 if isinstance(src, ast.Name):
-                    for n_ in walk_local(dec):
-                        if isinstance(n_, ast.Assign) and unparse(n_.targets[0]) == src.id:
-                            for r in _reads(n_.value):
-                                size = lib.const(r.args[0])
-                            for x in ast.walk(n_.value):
-                                if isinstance(x, ast.Call) and (dotted(x.func) or "").endswith("readExactly") or (isinstance(x, ast.Call) and (dotted(x.func) or "").endswith("_readExactly")):
-                                    size = lib.const(x.args[-1])
-                for x in ast.walk(src):
-                    if isinstance(x, ast.Call) and (dotted(x.func) or "").endswith("eadExactly") and x.args:
-                        size = lib.const(x.args[-1])
+                    v_ = lib.local_value(dec, src.id) if hasattr(lib, "local_value") else None
+                    src = v_ if v_ is not None else src
+                # the number of bytes handed to int.from_bytes: the size argument of the outermost read of the buffer expression
+                size = None
+                if isinstance(src, ast.Call) and (dotted(src.func) or "").endswith("eadExactly") and src.args:
+                    size = lib.const(src.args[-1])
+                elif isinstance(src, ast.Call) and src in _reads(src):
+                    size = lib.const(src.args[0])
                 fb.append((size, lib.const(lib.kw(c, "byteorder")), lib.const(lib.kw(c, "signed"))))
         if tb or fb:
             if sorted(map(str, tb)) != sorted(map(str, fb)):
@@ -112,7 +107,21 @@ def check_symmetry(ctx, R="C18.symmetry"):
                 small_r.append(int(r_) - 1)
         rtags = sorted(rtags)
         if wtags or rtags:
-            small_w = [c.comparators[-1].value for c in ast.walk(enc) if isinstance(c, ast.Compare) and len(c.ops) == 2 and lib.const(c.left) == 0 and isinstance(c.comparators[-1], ast.Constant)]
+            # values written directly as the tag byte: `bytes([value])` is reached only under 0 <= value <= K
+            small_w = []
+            vpar = enc.args.args[0].arg if enc.args.args else None
+            for c in ast.walk(enc):
+                if isinstance(c, ast.Call) and dotted(c.func) == "bytes" and c.args and isinstance(c.args[0], ast.List) and len(c.args[0].elts) == 1 and isinstance(c.args[0].elts[0], ast.Name) and c.args[0].elts[0].id == vpar:
+                    conds_ = lib.flatten_conditions(lib.guard_tests(c, enc))
+                    ks = []
+                    for t_, p_ in conds_:
+                        cp_ = lib.cmp_parts(t_) if p_ else None
+                        if cp_ and cp_[0] == vpar and cp_[2].lstrip("-").isdigit() and cp_[1] in (ast.LtE, ast.Lt):
+                            ks.append(int(cp_[2]) - (1 if cp_[1] is ast.Lt else 0))
+                    if ks and lib.holds(conds_, f"0 <= {vpar}", f"-1 < {vpar}"):
+                        small_w.append(min(ks))
+                    else:
+                        small_w.append(None)
             # the reader's last tag is the else branch
             if not (set(rtags) <= set(wtags) and len(wtags) - len(rtags) <= 1 and small_w == small_r):
                 problems.append(f"tag bytes: writer uses {wtags} / direct values <= {small_w}, reader tests {rtags} / direct values <= {small_r}")
@@ -170,8 +179,8 @@ def check_symmetry(ctx, R="C18.symmetry"):
         s_, d_ = ci.methods.get("serializeValue"), ci.methods.get("deserializeValue")
         if s_ is None or d_ is None:
             continue
-        ws_ = [unparse(c.args[0]) for c in sorted([c for c in ast.walk(s_) if isinstance(c, ast.Call) and isinstance(c.func, ast.Attribute) and c.func.attr == "writeSamplable"], key=lambda c: c.lineno)]
-        rs_ = [unparse(c.args[0]) for c in sorted([c for c in ast.walk(d_) if isinstance(c, ast.Call) and isinstance(c.func, ast.Attribute) and c.func.attr == "readSamplable"], key=lambda c: c.lineno)]
+        ws_ = [lib.role_text(s_, c.args[0]) for c in sorted([c for c in ast.walk(s_) if isinstance(c, ast.Call) and isinstance(c.func, ast.Attribute) and c.func.attr == "writeSamplable"], key=lambda c: c.lineno)]
+        rs_ = [lib.role_text(d_, c.args[0]) for c in sorted([c for c in ast.walk(d_) if isinstance(c, ast.Call) and isinstance(c.func, ast.Attribute) and c.func.attr == "readSamplable"], key=lambda c: c.lineno)]
         wv = [unparse(c.args[1]) for c in ast.walk(s_) if isinstance(c, ast.Call) and isinstance(c.func, ast.Attribute) and c.func.attr == "writeValue"]
         rv = [unparse(c.args[0]) for c in ast.walk(d_) if isinstance(c, ast.Call) and isinstance(c.func, ast.Attribute) and c.func.attr == "readValue"]
         loops_w = [unparse(l.iter) for l in ast.walk(s_) if isinstance(l, ast.For)]
@@ -210,14 +219,26 @@ def check_fail_closed(ctx, R="C18.failclosed"):
             elif isinstance(p, ast.Subscript) and lib.const(p.slice) == 0:
                 ok, why = True, "[0] raises on an empty read"
             elif isinstance(p, ast.Assign) and isinstance(p.targets[0], ast.Name):
+                # every use of the buffer either raises on short input by itself or is reached only when its length was checked
                 v = p.targets[0].id
-                rest = unparse(fn)
-                if f"len({v}) != " in rest and "raise SerializationError" in rest:
-                    ok, why = True, "explicit length check"
-                elif f"{v} != " in rest and "raise SerializationError" in rest:
-                    ok, why = True, "compared with the expected header"
-                elif any(isinstance(c, ast.Call) and dotted(c.func) == "struct.unpack" and any(isinstance(x, ast.Name) and x.id == v for x in ast.walk(c)) for c in ast.walk(fn)):
-                    ok, why = True, "later unpacked with struct"
+                want_n = unparse(r.args[0]) if r.args else None
+                uses = [x for x in walk_local(fn) if isinstance(x, ast.Name) and x.id == v and isinstance(x.ctx, ast.Load)]
+                loose = []
+                for u in uses:
+                    up = parent(u)
+                    if isinstance(up, ast.Call) and dotted(up.func) == "len":
+                        continue  # the check itself
+                    if any(isinstance(a, ast.Call) and dotted(a.func) == "struct.unpack" for a in ancestors(u) if a is not fn):
+                        continue
+                    if isinstance(up, ast.Compare) and all(isinstance(o, (ast.Eq, ast.NotEq)) for o in up.ops):
+                        continue  # compared with the expected content
+                    if isinstance(up, ast.Subscript) and lib.const(up.slice) == 0:
+                        continue
+                    if want_n is not None and lib.holds(lib.guard_tests(u, fn), f"len({v}) == {want_n}", f"len({v}) >= {want_n}"):
+                        continue
+                    loose.append(u)
+                if uses and not loose:
+                    ok, why = True, "every use is length-checked, compared with the expected content or unpacked with struct"
             elif isinstance(p, ast.Compare):
                 ok, why = True, "length / content comparison"
             if ok:
